@@ -25,6 +25,8 @@ KINDS = {
     # two described fields, a struct-coded one before one without struct code (the sync hooks are indexed)
     'two': (["length = Int(1).describe(AutoLength('a'))", "m = Int(3).describe(AutoLength('b'))", 'a = Data(length)', "b = Data(m, default=b'pq')"], None),
     'two-rev': (["m = Int(3).describe(AutoLength('b'))", "length = Int(1).describe(AutoLength('a'))", "b = Data(m, default=b'pq')", 'a = Data(length)'], None),
+    # the class with the described field is embedded: its fields become fields of the embedding class
+    'embed': (["length = Int(1).describe(AutoLength('a'))", 'a = Data(length)'], ['pre = Int(1)', 'body = Ref(K(), embed=True)', 'post = Int(1)']),
     # the described field is also positioned (its move pseudo-field precedes it in the field list)
     'at': (["length = Int(1).describe(AutoLength('a')).at(1)", 'a = Data(length)'], None),
     'class-align': (['x = Int(1)', "length = Int(1).describe(AutoLength('a'))", 'a = Data(length)'], None, {'align': 2}),
@@ -53,7 +55,7 @@ def encode(kind, length, a):
     body = bytes([length & 0xff]) + a
     if kind == 'run':
         return b'\x00' + bytes([length & 0xff]) + b'\x00\x00' + a
-    if kind in ('sub', 'sub-proto'):
+    if kind in ('sub', 'sub-proto', 'embed'):
         return b'\x00' + body + b'\x00'
     if kind == 'two':
         return bytes([length & 0xff]) + b'\x00\x00\x02' + a + b'pq'
@@ -77,7 +79,7 @@ def raw_for(kind, r):
         return b'\x00\x00\x02' + r[:1] + b'pq' + r[1:]
     if kind == 'run':
         return b'\x00' + r[:1] + b'\x00\x00' + r[1:]
-    if kind in ('sub', 'sub-proto'):
+    if kind in ('sub', 'sub-proto', 'embed'):
         return b'\x00' + r + b'\x00'
     if kind == 'at':
         return b'.' + r
@@ -109,6 +111,8 @@ def start(kind, mod, init):
         if kind in ('sub', 'sub-proto'):
             top = mod.W(body=mod.K(**kw))
             tgt = top.body
+        elif kind == 'embed':
+            top = tgt = mod.W(**kw)
         else:
             top = tgt = mod.K(**kw)
         if 'a' in kw:
@@ -117,7 +121,7 @@ def start(kind, mod, init):
             m.enabled, m.explicit = False, kw['length']
     else:
         r = init[1]
-        cls = mod.W if kind in ('sub', 'sub-proto') else mod.K
+        cls = mod.W if kind in ('sub', 'sub-proto', 'embed') else mod.K
         top = cls.unpack(raw_for(kind, r))
         tgt = top.body if kind in ('sub', 'sub-proto') else top
         m.a = r[1:1 + r[0]]
@@ -126,7 +130,7 @@ def start(kind, mod, init):
 
 def run_history(kind, mod, init, hist):
     """returns (error or None, canonical model state, transitions)"""
-    by_top = (mod.W(body=mod.K(a=b'q')) if kind in ('sub', 'sub-proto') else mod.K(a=b'q'))
+    by_top = (mod.W(body=mod.K(a=b'q')) if kind in ('sub', 'sub-proto') else (mod.W(a=b'q') if kind == 'embed' else mod.K(a=b'q')))
     by_tgt = by_top.body if kind in ('sub', 'sub-proto') else by_top
     try:
         top, tgt, m = start(kind, mod, init)
@@ -146,7 +150,7 @@ def run_history(kind, mod, init, hist):
                 del tgt.length
                 m.enabled = True
             elif op[0] == 'unpack':
-                cls = mod.W if kind in ('sub', 'sub-proto') else mod.K
+                cls = mod.W if kind in ('sub', 'sub-proto', 'embed') else mod.K
                 top = cls.unpack(raw_for(kind, op[1]))
                 tgt = top.body if kind in ('sub', 'sub-proto') else top
                 m = Model()
@@ -177,10 +181,10 @@ def run_history(kind, mod, init, hist):
 
 def snippet(kind, path, init, hist):
     lines = [mk.HEADER + source(kind, path)]
-    top = 'W' if kind in ('sub', 'sub-proto') else 'K'
+    top = 'W' if kind in ('sub', 'sub-proto', 'embed') else 'K'
     if init[0] == 'new':
         kw = ', '.join('%s=%r' % kv for kv in init[1].items())
-        lines.append('p = W(body=K(%s)); t = p.body' % kw if kind in ('sub', 'sub-proto') else 'p = t = K(%s)' % kw)
+        lines.append('p = W(body=K(%s)); t = p.body' % kw if kind in ('sub', 'sub-proto') else ('p = t = %s(%s)' % ('W' if kind == 'embed' else 'K', kw)))
     else:
         lines.append('p = %s.unpack(%r); t = %s' % (top, raw_for(kind, init[1]), 'p.body' if kind in ('sub', 'sub-proto') else 'p'))
     for op in hist:
